@@ -151,6 +151,48 @@ def demangle(n):
     return "::".join(ids[1:3]) if len(ids) >= 3 else "::".join(ids) if ids else n[:40]
 
 
+def union(pids):
+    """lines of the library crates that NO property's correspondence run executes"""
+    profs = [os.path.join(ROOT, "runs", f"cov-{p}", "cov.profdata") for p in pids]
+    profs = [p for p in profs if os.path.exists(p)]
+    allp = os.path.join(ROOT, "runs", "cov-union.profdata")
+    if sh([os.path.join(TOOLS, "llvm-profdata"), "merge", "-sparse", "-o", allp] + profs).returncode:
+        return
+    files = []
+    for crate in ("erltf", "edp_client", "edp_node", "erltf_serde", "edp_elixir_terms"):
+        d = f"/repo/crates/{crate}/src"
+        files += sorted(os.path.join(d, f) for f in os.listdir(d) if f.endswith(".rs") and f != "verif_hooks.rs")
+    p = subprocess.run([os.path.join(TOOLS, "llvm-cov"), "export", "--format=lcov", "--instr-profile", allp, BIN] + files,
+                       stdout=subprocess.PIPE, stderr=subprocess.PIPE, text=True)
+    cur, da = None, {}
+    for l in p.stdout.splitlines():
+        if l.startswith("SF:"):
+            cur = l[3:]
+            da[cur] = {}
+        elif l.startswith("DA:") and cur:
+            ln, cnt = l[3:].split(",")[:2]
+            da[cur][int(ln)] = da[cur].get(int(ln), 0) + int(cnt)
+    rep = ["# lines of the library crates that no property's correspondence run (quick tier, seed 1) executes", ""]
+    tot_a = tot_t = 0
+    for f in files:
+        d = da.get(f)
+        if not d:
+            rep.append(f"## {f}: not linked into the harness")
+            continue
+        src = open(f).read().split("\n")
+        missed = [n for n, c in d.items() if c == 0]
+        tot_a += len(d) - len(missed)
+        tot_t += len(d)
+        rep.append(f"## {f}: {len(d) - len(missed)}/{len(d)}")
+        for a, b in ranges(missed):
+            rep.append(f"  {a}-{b}  {src[a - 1].strip()[:120] if a - 1 < len(src) else ''}")
+        rep.append("")
+    rep.insert(1, f"# total: {tot_a}/{tot_t} instrumented lines executed by at least one property")
+    path = os.path.join(ROOT, "notes", "tie-coverage", "UNION.txt")
+    open(path, "w").write("\n".join(rep) + "\n")
+    print(f"union: {tot_a}/{tot_t} -> {path}")
+
+
 def main():
     which = sys.argv[1] if len(sys.argv) > 1 else "all"
     tier = sys.argv[2] if len(sys.argv) > 2 else "quick"
@@ -161,6 +203,8 @@ def main():
         if r:
             summary, path = r
             print(pid, " ".join(f"{f}:{a}/{t}" for f, a, t in summary), "->", path)
+    if which == "all":
+        union(pids)
 
 
 if __name__ == "__main__":
